@@ -935,7 +935,7 @@ fn main() {
     }
     let args = parse_args();
     quiet_panics();
-    let mut out = Out::new(&args, "From Verif Require Import Algos.", "Algos.ncase", "Algos.check_ncase", if args.thorough { 60 } else { 40 });
+    let mut out = Out::new(&args, "From Verif Require Import Algos Flow.", "Algos.ncase", "Flow.check_ncase", if args.thorough { 60 } else { 40 });
     out.rule = "directed multigraphs fed through GraphView::from_adjacency_list. Exhaustive: every multiplicity \
                 structure (0/1/2 parallel edges per ordered pair, self-loops included for n<=2, excluded for n=3) on \
                 1..3 nodes, all weight assignments from {1,2,5} for n<=2 without self-loops and sampled weights otherwise \
